@@ -141,6 +141,14 @@ Section Cross.
     - specialize (Hr2 i d Hd []). now rewrite app_nil_r in Hr2.
   Qed.
 
+  (* decoders carry no state from one block to the next: what ReadBlock returns for block i depends only on the
+     header and on the file contents from that block's offset on - damage elsewhere (an undecodable earlier block
+     included) cannot change it *)
+  Lemma read_block_local : forall c bytes bytes' hdr i b,
+    nth_error hdr i = Some b -> skipn (b_off b) bytes = skipn (b_off b) bytes' ->
+    read_block zero lib c bytes hdr i = read_block zero lib c bytes' hdr i.
+  Proof. intros c bytes bytes' hdr i b Hn He. unfold read_block. rewrite Hn, He. reflexivity. Qed.
+
   (* the stored bytes do not depend on the scratch buffer (c02_wrapper_pure of the design) *)
   Lemma write_scratch_irrelevant : forall cw t lvl s1 s2 g datas,
     write_all zero lib cw t lvl s1 g datas = write_all zero lib cw t lvl s2 g datas.
